@@ -565,6 +565,9 @@ func (p *Program) resolveTypeExpr(te *TypeExpr, tc *typeCtx) SpecType {
 	if name == "world" {
 		return goST(worldT)
 	}
+	if name == "mapref" {
+		return goST(maprefT)
+	}
 	if tc != nil {
 		if t, ok := tc.targs[name]; ok {
 			return goST(t)
